@@ -68,3 +68,20 @@ Example C07_example :
   encode (option nat) None fs false (decode (option nat) (fun v => match v with None => true | _ => false end) fs false [("id", Some 1)])
   = [("id", Some 1); ("nick", None)].
 Proof. vm_compute. reflexivity. Qed.
+
+(** Integer members: the Go type the type / format table gives a sized format (Model/TypeMap.v, tied to the code cell by
+    cell in C08) holds every integer the format stands for, so decoding a valid instance never overflows; with the
+    unsigned 64-bit row forgotten, 2^63 - a valid uint64 - is refused by the decoder. *)
+From Coq Require Import ZArith.
+From V Require Import Model.TypeMap Proofs.TypeMapProofs.
+Theorem C07_sized_formats_hold_their_range : forall f r v,
+  In f sized_formats -> int_range f = Some r -> in_range r v = true -> decodes go_type f v = true.
+Proof. exact sized_formats_hold_their_range. Qed.
+Print Assumptions C07_sized_formats_hold_their_range.
+
+Theorem C07_uint64_as_int_refuted :
+  in_range (0, 18446744073709551615)%Z 9223372036854775808%Z = true
+  /\ decodes go_type "uint64" 9223372036854775808%Z = true
+  /\ decodes go_type_without_uint64 "uint64" 9223372036854775808%Z = false.
+Proof. exact uint64_as_int_refuted. Qed.
+Print Assumptions C07_uint64_as_int_refuted.
